@@ -91,7 +91,9 @@ pub fn pipeline(text: &str, backends: &[&str], kf: &Kf, acc: &mut Acc, label: &s
             "python" => guarded(|| pdl_compiler::backends::python::generate(&db, &af, None, &[])).map(|_| ()),
             "cxx" => guarded(|| pdl_compiler::backends::cxx::generate(&db, &af, Some("ns"), &[], &[], &[])).map(|_| ()),
             "java" => {
-                let dir = crate::rustharness::work_dir().join(format!("java-c10/{:016x}", fnv(&[text.as_bytes()])));
+                // one scratch directory per call: two workers may hold the same text
+                static N: std::sync::atomic::AtomicU64 = std::sync::atomic::AtomicU64::new(0);
+                let dir = crate::rustharness::work_dir().join(format!("java-c10/{}-{}-{:016x}", std::process::id(), N.fetch_add(1, std::sync::atomic::Ordering::Relaxed), fnv(&[text.as_bytes()])));
                 let r = guarded(|| pdl_compiler::backends::java::generate(&db, &af, &[], &dir, "p")).and_then(|r| r);
                 let _ = std::fs::remove_dir_all(&dir);
                 r
